@@ -83,24 +83,31 @@ class HTTPProxyConnectionPool(ConnectionPool):
         if connection.closed():
             _logger.debug('Connecting to proxy.')
 
-            # A connection closed by the proxy must be reset for reuse
-            connection.reset()
-            connection.wrapped_connection = None
+            try:
+                # A connection closed by the proxy must be reset for reuse
+                connection.reset()
+                connection.wrapped_connection = None
 
-            yield from connection.connect()
+                yield from connection.connect()
 
-            if tunnel:
-                yield from self._establish_tunnel(connection, (host, port))
+                if tunnel:
+                    yield from self._establish_tunnel(connection, (host, port))
 
-            if use_ssl:
-                ssl_connection = yield from connection.start_tls(self._ssl_context)
-                ssl_connection.proxied = True
-                ssl_connection.tunneled = True
+                if use_ssl:
+                    ssl_connection = yield from connection.start_tls(self._ssl_context)
+                    ssl_connection.proxied = True
+                    ssl_connection.tunneled = True
 
-                self._connection_map[ssl_connection] = connection
-                connection.wrapped_connection = ssl_connection
+                    self._connection_map[ssl_connection] = connection
+                    connection.wrapped_connection = ssl_connection
 
-                return ssl_connection
+                    return ssl_connection
+            except BaseException:
+                # Don't leak the checked out connection if the proxy
+                # cannot be reached or the caller is cancelled.
+                connection.close()
+                super().no_wait_release(connection)
+                raise
 
         if connection.wrapped_connection:
             ssl_connection = connection.wrapped_connection
